@@ -1,6 +1,6 @@
 (* C15 - Surface copies and blends place exactly the requested block.
    Nothing but statements closed by `exact` and their assumptions. *)
-Require Import RQ.Base RQ.Rect RQ.Pixel RQ.Surface RQ.SurfaceProofs.
+Require Import RQ.Base RQ.Rect RQ.Pixel RQ.Surface RQ.SurfaceProofs RQ.SurfaceCorollaries.
 
 (* For every per-pixel row function gr computing the total function g (copy, any blend mode
    that cannot trip a debug assertion, source-over by an alpha byte), every destination and
@@ -33,6 +33,72 @@ Theorem C15_blend_surface_porter_duff :
   exists g, forall s d, cs_fn (CsBlend m) s d = Ok (g s d).
 Proof. exact blend_porter_duff_total. Qed.
 Print Assumptions C15_blend_surface_porter_duff.
+
+(* Whole-buffer consequences (SurfaceCorollaries.v). *)
+
+(* copy_surface of the whole source onto a destination of the same size at (0,0): the destination becomes the source,
+   as a list, whatever it held before. *)
+Theorem C15_full_frame_copy_is_the_source :
+  forall w h dbuf sbuf, 0 <= w -> 0 <= h -> zlen dbuf = w * h -> zlen sbuf = w * h ->
+  surface_op CsCopy w h dbuf w h sbuf (mkrect 0 0 w h) 0 0 = Ok sbuf.
+Proof. exact full_frame_copy_is_the_source. Qed.
+Print Assumptions C15_full_frame_copy_is_the_source.
+
+(* copying an in-range block out to a scratch surface of the block's size and back to where it came from leaves the
+   first surface exactly as it was: the two calls agree about which pixel is which. *)
+Theorem C15_copy_out_and_back_is_identity :
+  forall w h buf bw bh tmp sx sy tmp',
+  0 <= w -> 0 <= h -> 0 <= bw -> 0 <= bh -> zlen buf = w * h -> zlen tmp = bw * bh ->
+  surface_op CsCopy bw bh tmp w h buf (mkrect sx sy (sx + bw) (sy + bh)) 0 0 = Ok tmp' ->
+  0 <= sx -> 0 <= sy -> sx + bw <= w -> sy + bh <= h ->
+  surface_op CsCopy w h buf bw bh tmp' (mkrect 0 0 bw bh) sx sy = Ok buf.
+Proof. exact copy_out_and_back_is_identity. Qed.
+Print Assumptions C15_copy_out_and_back_is_identity.
+
+(* a transfer whose per-pixel function ignores the old destination value (copy_surface; blend modes Src and Clear)
+   is idempotent: doing it again changes nothing. *)
+Theorem C15_transfer_twice_is_once :
+  forall (gr : Z -> Z -> result Z) (g : Z -> Z -> Z), (forall s d, gr s d = Ok (g s d)) ->
+  forall dw dh dbuf sw sh sbuf sr dx dy buf1,
+    (forall s d d', g s d = g s d') ->
+    dom_ok dw dh sw sh sr dx dy -> zlen dbuf = dw * dh -> zlen sbuf = sw * sh ->
+    composite_surface gr dw dh dbuf sw sh sbuf sr dx dy = Ok buf1 ->
+    composite_surface gr dw dh buf1 sw sh sbuf sr dx dy = Ok buf1.
+Proof. exact transfer_twice_is_once. Qed.
+Print Assumptions C15_transfer_twice_is_once.
+
+(* "everything else untouched", for whole calls: when no destination pixel has a source position inside src_rect and
+   the source, the call returns the destination unchanged - and that is the case for an empty or inverted src_rect,
+   for a src_rect that misses the source, and for a dst that puts the block beyond the destination. *)
+Theorem C15_nothing_written_is_identity :
+  forall (gr : Z -> Z -> result Z) (g : Z -> Z -> Z), (forall s d, gr s d = Ok (g s d)) ->
+  forall dw dh dbuf sw sh sbuf sr dx dy,
+    dom_ok dw dh sw sh sr dx dy -> zlen dbuf = dw * dh -> zlen sbuf = sw * sh ->
+    (forall X Y, 0 <= X < dw -> 0 <= Y < dh -> cs_written sw sh sr dx dy X Y = false) ->
+    composite_surface gr dw dh dbuf sw sh sbuf sr dx dy = Ok dbuf.
+Proof. exact nothing_written_is_identity. Qed.
+Print Assumptions C15_nothing_written_is_identity.
+Theorem C15_empty_rect_selects_nothing :
+  forall sw sh sr dx dy X Y, x1 sr <= x0 sr \/ y1 sr <= y0 sr -> cs_written sw sh sr dx dy X Y = false.
+Proof. exact empty_rect_not_written. Qed.
+Print Assumptions C15_empty_rect_selects_nothing.
+Theorem C15_rect_off_the_source_selects_nothing :
+  forall sw sh sr dx dy X Y,
+    x1 sr <= 0 \/ y1 sr <= 0 \/ sw <= x0 sr \/ sh <= y0 sr -> cs_written sw sh sr dx dy X Y = false.
+Proof. exact outlying_rect_not_written. Qed.
+Print Assumptions C15_rect_off_the_source_selects_nothing.
+Theorem C15_block_off_the_destination_selects_nothing :
+  forall dw dh sw sh sr dx dy X Y, 0 <= X < dw -> 0 <= Y < dh ->
+    dw <= dx \/ dh <= dy \/ dx + (x1 sr - x0 sr) <= 0 \/ dy + (y1 sr - y0 sr) <= 0 ->
+    cs_written sw sh sr dx dy X Y = false.
+Proof. exact outlying_dst_not_written. Qed.
+Print Assumptions C15_block_off_the_destination_selects_nothing.
+
+(* non-vacuity of the round trip: a 2x1 block of a 3x2 surface out and back *)
+Example C15_round_trip_example :
+  surface_op CsCopy 2 1 [9;9] 3 2 [1;2;3; 4;5;6] (mkrect 1 1 3 2) 0 0 = Ok [5;6] /\
+  surface_op CsCopy 3 2 [1;2;3; 4;5;6] 2 1 [5;6] (mkrect 0 0 2 1) 1 1 = Ok [1;2;3; 4;5;6].
+Proof. vm_compute. split; reflexivity. Qed.
 
 (* non-vacuity: a 3x2 source copied with src_rect (1,0)-(3,2) to (1,1) of a 3x3 destination *)
 Example C15_example :
